@@ -159,6 +159,18 @@ def game_fields_task(task):
             for fld in ('ante_trimming_status', 'antes', 'blinds_or_straddles', 'bring_in', 'starting_stacks'):
                 if getattr(s2, fld) != getattr(state, fld):
                     bad.append((trial, fld, getattr(state, fld), getattr(s2, fld)))
+            # ... and they survive the text: saved and loaded again, the same state is created and the same text written
+            try:
+                text = hh.dumps()
+                hh3 = HandHistory.loads(text)
+                s3 = hh3.create_state()
+                for fld in ('ante_trimming_status', 'antes', 'blinds_or_straddles', 'bring_in', 'starting_stacks'):
+                    if getattr(s3, fld) != getattr(state, fld):
+                        bad.append((trial, 'after save/load', fld, getattr(state, fld), getattr(s3, fld)))
+                if hh3.dumps() != text:
+                    bad.append((trial, 'saved again differs'))
+            except Exception as e:     # noqa
+                bad.append((trial, 'save/load', repr(e)))
             for fld in ('small_bet', 'big_bet', 'min_bet'):
                 if fld in names and getattr(g2, fld) != getattr(game, fld):
                     bad.append((trial, fld))
@@ -187,6 +199,54 @@ def truncation_task(task):
     return {'results': [res('C16/HandHistory.state_actions/unapplied-actions-raise-ValueError/D-inf', ok_tail and ok_loop and ok_back and not returns,
                             f'tail={ok_tail} loop={ok_loop} put-back={ok_back} early-returns={len(returns)}', label='D∞', backend='AST scan',
                             meta={'function': 'pokerkit.notation.HandHistory.state_actions'})], 'contract': None}
+
+
+def isolation_task(task):
+    """hand histories do not share state: (scan, D-infinity) no function of pokerkit/notation.py has a mutable default argument and no
+    method writes a class attribute; (E, sequence) a history with user-defined fields loaded or created BEFORE one without leaves the
+    second one as it is written"""
+    import ast
+    import pokerkit as pk
+    from pokerkit.notation import HandHistory
+    src = source(EXTRA) if 'source' in globals() else None
+    import inspect
+    import pokerkit.notation as N
+    tree = ast.parse(inspect.getsource(N))
+    bad = []
+    for f in [x for x in ast.walk(tree) if isinstance(x, (ast.FunctionDef, ast.AsyncFunctionDef, ast.Lambda))]:
+        for d in list(f.args.defaults) + [x for x in f.args.kw_defaults if x is not None]:
+            if isinstance(d, (ast.Dict, ast.List, ast.Set, ast.DictComp, ast.ListComp, ast.SetComp)) or \
+                    (isinstance(d, ast.Call) and isinstance(d.func, ast.Name) and d.func.id in ('dict', 'list', 'set', 'deque', 'defaultdict')):
+                bad.append((getattr(f, 'name', 'lambda'), f.lineno, ast.unparse(d)))
+    out = [res('C16/notation/no-mutable-default-argument/D-inf', not bad, f'{bad[:4]}', label='D∞', backend='AST scan',
+               meta={'function': 'pokerkit.notation (all functions)'})]
+    # sequence check
+    seq_bad = []
+    with_fields = ("variant = 'NT'\nante_trimming_status = true\nantes = [0, 0]\nblinds_or_straddles = [1, 2]\nmin_bet = 2\n"
+                   "starting_stacks = [100, 100]\nactions = ['d dh p1 AsKs', 'd dh p2 QdQh', 'p2 f']\n_note = 'first hand'\n_tags = ['a', 'b']\n")
+    without = ("variant = 'NT'\nante_trimming_status = true\nantes = [0, 0]\nblinds_or_straddles = [1, 2]\nmin_bet = 2\n"
+               "starting_stacks = [100, 100]\nactions = ['d dh p1 AsKs', 'd dh p2 QdQh', 'p2 f']\n")
+    try:
+        h1 = HandHistory.loads(with_fields)
+        t1 = h1.dumps()
+        h2 = HandHistory.loads(without)
+        t2 = h2.dumps()
+        if h2.user_defined_fields:
+            seq_bad.append(('fields leaked into the next hand', dict(h2.user_defined_fields)))
+        if HandHistory.loads(t2).dumps() != t2 or '_note' in t2:
+            seq_bad.append(('second hand is not written as it was read', t2[-80:]))
+        if HandHistory.loads(t1).dumps() != t1 or '_note' not in t1:
+            seq_bad.append(('first hand lost its fields', t1[-80:]))
+        game = pk.NoLimitTexasHoldem((), True, 0, (1, 2), 2)
+        st = game((100, 100), 2)
+        h3 = HandHistory.from_game_state(game, st)
+        if h3.user_defined_fields:
+            seq_bad.append(('fields leaked into a history made from a state', dict(h3.user_defined_fields)))
+    except Exception as e:   # noqa
+        seq_bad.append(('raised', repr(e)))
+    out.append(res('C16/HandHistory/a-hand-keeps-its-own-user-fields-whatever-was-loaded-before/E', not seq_bad, f'{seq_bad[:3]}',
+                   meta={'function': 'pokerkit.notation.HandHistory.loads / dumps / from_game_state', 'domain': 4, 'exhaustive': False}))
+    return {'results': out, 'contract': None}
 
 
 def roundtrip_task(task):
@@ -281,6 +341,7 @@ def main(argv=None):
     tasks = [{'module': M, 'fn': 'action_text_task', 'name': 'action-text', 'weight': 10},
              {'module': M, 'fn': 'game_fields_task', 'name': 'game-fields'},
              {'module': M, 'fn': 'truncation_task', 'name': 'truncation'},
+             {'module': M, 'fn': 'isolation_task', 'name': 'isolation'},
              {'module': M, 'fn': 'roundtrip_task', 'name': 'roundtrip-standin', 'hands': 66 if chk.tier == 'quick' else 1100, 'seed': chk.seed, 'weight': 50}]
     chk.run_tasks(tasks)
     standin = None
